@@ -26,6 +26,9 @@ pub struct Net {
     pub stats: NetStats,
     /// when set, called before every receive with (receiver, saved bytes before) -> used by C22
     pub trace: Vec<String>,
+    /// C19: check Message/State encode-decode round trips on every message and persisted state
+    pub check_roundtrip: bool,
+    pub roundtrips: u64,
 }
 
 fn und(p: usize, q: usize) -> (usize, usize) {
@@ -34,7 +37,7 @@ fn und(p: usize, q: usize) -> (usize, usize) {
 
 impl Net {
     pub fn new(docs: Vec<AutoCommit>) -> Self {
-        Net { peers: docs.into_iter().map(|doc| Peer { doc, states: BTreeMap::new() }).collect(), links: BTreeMap::new(), connected: BTreeSet::new(), stats: NetStats::default(), trace: vec![] }
+        Net { peers: docs.into_iter().map(|doc| Peer { doc, states: BTreeMap::new() }).collect(), links: BTreeMap::new(), connected: BTreeSet::new(), stats: NetStats::default(), trace: vec![], check_roundtrip: false, roundtrips: 0 }
     }
     pub fn connect(&mut self, p: usize, q: usize) {
         if p != q {
@@ -61,7 +64,21 @@ impl Net {
                 let ns = if persist {
                     self.stats.reconnect_persisted += 1;
                     let bytes = st.encode();
-                    catch("State::decode", || sync::State::decode(&bytes))?.map_err(|e| Failure::new("sync:state-decode-error", format!("State::decode(State::encode()) failed: {e}")))?
+                    let d = catch("State::decode", || sync::State::decode(&bytes))?.map_err(|e| Failure::new("sync:state-decode-error", format!("State::decode(State::encode()) failed: {e}")))?;
+                    if self.check_roundtrip {
+                        if d.shared_heads != st.shared_heads {
+                            return Err(Failure::new("C19:state:shared_heads", format!("decode(encode(state)).shared_heads {:?} != {:?}", d.shared_heads, st.shared_heads)));
+                        }
+                        if d.encode() != bytes {
+                            return Err(Failure::new("C19:state:re-encode-differs", "re-encoding a decoded state differs".to_string()));
+                        }
+                        // session fields at their documented reset values
+                        if d.their_heads.is_some() || d.their_need.is_some() || !d.sent_hashes.is_empty() || d.in_flight || d.have_responded || !d.last_sent_heads.is_empty() || d.read_only {
+                            return Err(Failure::new("C19:state:session-fields-not-reset", format!("decoded state carries session data: {:?}", d)));
+                        }
+                        self.roundtrips += 1;
+                    }
+                    d
                 } else {
                     self.stats.reconnect_fresh += 1;
                     sync::State::new()
@@ -91,7 +108,19 @@ impl Net {
                 if std::env::var("VERIF_DEBUG").is_ok() {
                     eprintln!("  gen {p}->{q}: heads {} need {} have {} changes {} flags {:?}", m.heads.len(), m.need.len(), m.have.len(), m.changes.len(), m.flags);
                 }
+                let copy = if self.check_roundtrip { Some(m.clone()) } else { None };
                 let bytes = catch("Message::encode", || m.encode())?;
+                if let Some(orig) = copy {
+                    let back = catch("Message::decode", || sync::Message::decode(&bytes))?.map_err(|e| Failure::new("C19:message:decode-error", format!("decode(encode(m)) failed: {e}")))?;
+                    if back != orig {
+                        return Err(Failure::new("C19:message:roundtrip-not-equal", format!("decode(encode(m)) != m:\n  m    = {:?}\n  back = {:?}", orig, back)));
+                    }
+                    let again = catch("Message::encode", || back.encode())?;
+                    if again != bytes {
+                        return Err(Failure::new("C19:message:re-encode-differs", "encode(decode(encode(m))) differs from encode(m)".to_string()));
+                    }
+                    self.roundtrips += 1;
+                }
                 self.links.entry((p, q)).or_default().push_back(bytes);
                 self.stats.generated += 1;
                 Ok(true)
